@@ -86,6 +86,15 @@ CLAIMED = {
              note="Prefix mode: each function is executed symbolically up to its first statement outside the modelled subset (raw "
                   "h5py / structured arrays); nothing is claimed about the code after that point. create_data_frame's schema "
                   "derivation is not under contract.", ref="7 C16"),
+ "C18": dict(text="Partial (task scheduling only): deductive proof over all header versions and detector outcomes that collect_tasks "
+                  "returns no task for an up-to-date file (so upgrading it writes nothing), and otherwise a list that ends with the "
+                  "version step and contains each conversion step exactly when its own detector reports work, independently of the "
+                  "others (a re-run after an interruption between steps therefore schedules exactly the steps still needed, version "
+                  "last). Content preservation by the conversion closures and crash behaviour inside one conversion are NOT decided.",
+             note="The detectors (add_file_id, update_property_values, update_alias_range_dimension), update_format_version and the "
+                  "conversion closures use raw h5py inside `with` blocks and enter as assumed summaries; h5py compound datasets and "
+                  "the crash model are assumptions; the resumability conclusion is argued over the proved clauses, not mechanised.",
+             ref="7 C18"),
 }
 NA_REASON = "check not built yet in this round (design in DESIGN.md section 7); will be claimed once its contracts discharge"
 checks, na = [], []
